@@ -242,7 +242,12 @@ func Mux(s *MuxSpec) ([]byte, error) {
 			}
 			dinf := box("dinf", fullbox("dref", 0, 0, cat(be32(1), fullbox("url ", 0, 1, nil))))
 			minf := box("minf", cat(mh, dinf, box("stbl", stbl)))
-			mdhd := fullbox("mdhd", 0, 0, cat(be32(0), be32(0), be32(tr.Timescale), be32(uint32(mediaDur)), be16(0x55c4), be16(0)))
+			var mdhd []byte
+			if mediaDur > 0xffffffff {
+				mdhd = fullbox("mdhd", 1, 0, cat(be64(0), be64(0), be32(tr.Timescale), be64(mediaDur), be16(0x55c4), be16(0)))
+			} else {
+				mdhd = fullbox("mdhd", 0, 0, cat(be32(0), be32(0), be32(tr.Timescale), be32(uint32(mediaDur)), be16(0x55c4), be16(0)))
+			}
 			hdlr := fullbox("hdlr", 0, 0, cat(be32(0), []byte(tr.Handler), make([]byte, 12), []byte("vsim\x00")))
 			mdia := box("mdia", cat(mdhd, hdlr, minf))
 			vol := uint16(0)
@@ -252,17 +257,28 @@ func Mux(s *MuxSpec) ([]byte, error) {
 			} else {
 				w, h = 640<<16, 360<<16
 			}
-			tkhd := fullbox("tkhd", 0, 7, cat(be32(0), be32(0), be32(tr.ID), be32(0), be32(uint32(movieDur)), make([]byte, 8), be16(0), be16(0), be16(vol), be16(0), unityMatrix, be32(w), be32(h)))
+			var tkhd []byte
+			if movieDur > 0xffffffff {
+				tkhd = fullbox("tkhd", 1, 7, cat(be64(0), be64(0), be32(tr.ID), be32(0), be64(movieDur), make([]byte, 8), be16(0), be16(0), be16(vol), be16(0), unityMatrix, be32(w), be32(h)))
+			} else {
+				tkhd = fullbox("tkhd", 0, 7, cat(be32(0), be32(0), be32(tr.ID), be32(0), be32(uint32(movieDur)), make([]byte, 8), be16(0), be16(0), be16(vol), be16(0), unityMatrix, be32(w), be32(h)))
+			}
 			var trak []byte
 			trak = append(trak, tkhd...)
 			if tr.Edts {
 				elst := fullbox("elst", 0, 0, cat(be32(1), be32(uint32(movieDur)), be32(0), be16(1), be16(0)))
+				if movieDur > 0xffffffff {
+					elst = fullbox("elst", 1, 0, cat(be32(1), be64(movieDur), be64(0), be16(1), be16(0)))
+				}
 				trak = append(trak, box("edts", elst)...)
 			}
 			trak = append(trak, mdia...)
 			traks = append(traks, box("trak", trak)...)
 		}
 		mvhd := fullbox("mvhd", 0, 0, cat(be32(0), be32(0), be32(s.MovieTS), be32(uint32(maxDur)), be32(0x00010000), be16(0x0100), make([]byte, 10), unityMatrix, make([]byte, 24), be32(uint32(len(s.Tracks)+1))))
+		if maxDur > 0xffffffff {
+			mvhd = fullbox("mvhd", 1, 0, cat(be64(0), be64(0), be32(s.MovieTS), be64(maxDur), be32(0x00010000), be16(0x0100), make([]byte, 10), unityMatrix, make([]byte, 24), be32(uint32(len(s.Tracks)+1))))
+		}
 		return box("moov", cat(mvhd, traks))
 	}
 	moovLen := len(buildMoov(0))
@@ -333,6 +349,11 @@ func DrawMuxSpecOpt(t *sim.Tape, av bool) (*MuxSpec, error) {
 		n := 1 + t.Draw(40)
 		gop := 1 + t.Draw(8)
 		baseDur := []uint32{1, 512, 1001, 1024, 3000, 3600}[t.Draw(6)]
+		if t.Chance(60) {
+			// very long samples in a fine timescale: stts runs that last more than 2^32 ticks (legal; needs version-1 headers)
+			tr.Timescale = 10000000
+			baseDur = uint32(150000000 + 1000000*t.Draw(50))
+		}
 		for k := 0; k < n; k++ {
 			sm := MuxSample{Dur: baseDur, Sync: true}
 			if t.Chance(150) {
